@@ -265,9 +265,19 @@ func runC06Driver(c *Ctx) {
 		}
 		var results, toks []string
 		leak := ""
+		// every second sequence delivers all its phases on ONE seata context (an application that repeats a
+		// refused delivery with the context it has): nothing of a finished or refused delivery may stick to it
+		var shared context.Context
+		if i%2 == 1 {
+			shared = tm.InitSeataContext(context.Background())
+			c.Out.Count("fence-driver.shared-context")
+		}
 		crash := safeCall(func() {
 			for k, ph := range seq {
-				ctx := tm.InitSeataContext(context.Background())
+				ctx := shared
+				if ctx == nil {
+					ctx = tm.InitSeataContext(context.Background())
+				}
 				tm.SetBusinessActionContext(ctx, &tm.BusinessActionContext{Xid: "10.0.0.1:8091:77", BranchId: 1, ActionName: "action"})
 				switch ph {
 				case 'P':
